@@ -576,6 +576,15 @@ func (vc *VC) execCall(fr *Frame, st *State, x *ssa.Call) {
 		args = append(args, vc.val(fr, st, a))
 	}
 	if b, ok := c.Value.(*ssa.Builtin); ok {
+		if fr.depth == 0 && fr.con != nil && len(fr.con.Asserts) > 0 {
+			k := fr.idxN["assertsite:"+b.Name()]
+			fr.idxN["assertsite:"+b.Name()] = k + 1
+			keys := []string{fmt.Sprintf("%s#%d", b.Name(), k)}
+			vc.cutPoints(fr, st, keys, "")
+			fr.regs[x] = vc.builtin(fr, st, x, b.Name(), args)
+			vc.cutPoints(fr, st, keys, "after ")
+			return
+		}
 		fr.regs[x] = vc.builtin(fr, st, x, b.Name(), args)
 		return
 	}
@@ -657,29 +666,31 @@ func (vc *VC) callFunc(fr *Frame, st *State, x *ssa.Call, callee *ssa.Function, 
 		k := fr.idxN["assertsite:"+nm]
 		fr.idxN["assertsite:"+nm] = k + 1
 		keys := []string{fmt.Sprintf("%s#%d", nm, k), fmt.Sprintf("%s#%d", nm[strings.LastIndex(nm, ".")+1:], k)}
-		cut := func(prefix string) {
-			for _, key := range keys {
-				for _, c := range fr.con.Asserts[prefix+key] {
-					env := vc.loopEnvAt(fr, st)
-					for n, v := range fr.specVars {
-						env.vars[n] = v
-					}
-					g, err := env.evalBool(c.E)
-					if err != nil {
-						vc.oblige(st, "spec-error", "assert/"+c.Name, "false", c.Pos, err.Error())
-						continue
-					}
-					vc.oblige(st, "assert", c.Name, g, c.Pos, c.Src)
-					vc.assume(implies(st.reach, g))
-				}
-			}
-		}
-		cut("")
+		vc.cutPoints(fr, st, keys, "")
 		r := vc.callFunc2(fr, st, x, callee, args, binds)
-		cut("after ")
+		vc.cutPoints(fr, st, keys, "after ")
 		return r
 	}
 	return vc.callFunc2(fr, st, x, callee, args, binds)
+}
+
+// cutPoints checks, then assumes, the contract's assertions attached to a call site.
+func (vc *VC) cutPoints(fr *Frame, st *State, keys []string, prefix string) {
+	for _, key := range keys {
+		for _, c := range fr.con.Asserts[prefix+key] {
+			env := vc.loopEnvAt(fr, st)
+			for n, v := range fr.specVars {
+				env.vars[n] = v
+			}
+			g, err := env.evalBool(c.E)
+			if err != nil {
+				vc.oblige(st, "spec-error", "assert/"+c.Name, "false", c.Pos, err.Error())
+				continue
+			}
+			vc.oblige(st, "assert", c.Name, g, c.Pos, c.Src)
+			vc.assume(implies(st.reach, g))
+		}
+	}
 }
 
 func (vc *VC) callFunc2(fr *Frame, st *State, x *ssa.Call, callee *ssa.Function, args []*Val, binds []*Val) *Val {
@@ -918,6 +929,7 @@ func (vc *VC) applyModifies(fr *Frame, st, old *State, con *Contract, env *Env) 
 		vc.heap(st, t)
 		st.heaps[k] = vc.fresh("H_"+k, "(Array Int "+vc.u.sortOf(t)+")")
 		vc.assume(vc.refsBelowAxiom(st.heaps[k], t, st.alloc))
+		vc.assume(vc.elemWfAxiom(st.heaps[k], t))
 		delete(heapT, k)
 	}
 	for _, k := range sortedKeys(heapT) {
@@ -937,6 +949,7 @@ func (vc *VC) applyModifies(fr *Frame, st, old *State, con *Contract, env *Env) 
 			vc.assume(fmt.Sprintf("(forall ((a Int)) (! (=> %s (= (select %s a) (select %s a))) :pattern ((select %s a))))", and(outside...), nh, h, nh))
 		}
 		vc.assume(vc.refsBelowAxiom(nh, t, st.alloc))
+		vc.assume(vc.elemWfAxiom(nh, t))
 		st.heaps[k] = nh
 	}
 	for k := range mapAll {
@@ -1123,6 +1136,27 @@ func (vc *VC) loopEnvAt(fr *Frame, st *State) *Env {
 					}
 				}
 			}
+		}
+	}
+	// pre(): the entry state of the innermost loop around the current block
+	if fr.depth == 0 && vc.curBlk >= 0 {
+		var best *loopInfo
+		for _, l := range fr.loops {
+			if l.entry == nil {
+				continue
+			}
+			in := false
+			for b := range l.blocks {
+				if b.Index == vc.curBlk {
+					in = true
+				}
+			}
+			if in && (best == nil || len(l.blocks) < len(best.blocks)) {
+				best = l
+			}
+		}
+		if best != nil {
+			env.pre = best.entry
 		}
 	}
 	return env
